@@ -26,22 +26,26 @@ Fresh == [sent |-> [n \in Nodes |-> <<>>],        \* ids submitted, in order
           tx |-> {},                              \* [n, ctr, rel, ack, id, bytes, cnt, last]
           dlv |-> {},                             \* [from, ctr]
           owe |-> {},                             \* [n, ctr]: n received a duplicate asking for an ack
-          hi |-> [n \in Nodes |-> -1]]
+          hi |-> [n \in Nodes |-> [prev |-> -1, cur |-> -1, t |-> -1]]]   \* highest counter handed to the network before / at instant t
 
 TxOf(st, n, c) == {x \in st.tx : x.n = n /\ x.ctr = c}
 
 AppSendOk(n, id, t, st) == st.pending[n].id = 0
 AfterAppSend(n, id, t, st) == [st EXCEPT !.sent[n] = Append(@, id), !.pending[n] = [id |-> id, t |-> t]]
 
-\* C15: new messages carry strictly increasing counters; a retransmission is bit-identical
+\* C15: new messages carry strictly increasing counters; a retransmission is bit-identical.  Datagrams handed to the
+\* network at the same instant (several sends queued behind one slow network send) may reach the wire in any order:
+\* a new counter is unused and greater than every counter handed over at an earlier instant.
+HiBefore(st, n, t) == IF t > st.hi[n].t THEN (IF st.hi[n].cur > st.hi[n].prev THEN st.hi[n].cur ELSE st.hi[n].prev) ELSE st.hi[n].prev
 \* C09: retransmissions respect the back-off and the transmission budget
 TxOk(n, c, rel, a, id, b, t, st) ==
-  IF TxOf(st, n, c) = {} THEN c > st.hi[n]
+  IF TxOf(st, n, c) = {} THEN c > HiBefore(st, n, t)
   ELSE \A x \in TxOf(st, n, c) : x.bytes = b /\ x.rel /\ t - x.last >= MinBackoff /\ x.cnt < MaxTx
 AfterTx(n, c, rel, a, id, b, t, st) ==
   [st EXCEPT !.tx = IF TxOf(st, n, c) = {} THEN @ \cup {[n |-> n, ctr |-> c, rel |-> rel, ack |-> a, id |-> id, bytes |-> b, cnt |-> 1, last |-> t]}
                     ELSE {IF x.n = n /\ x.ctr = c THEN [x EXCEPT !.cnt = @ + 1, !.last = t] ELSE x : x \in @},
-            !.hi[n] = IF c > @ THEN c ELSE @,
+            !.hi[n] = IF t > @.t THEN [prev |-> HiBefore(st, n, t), cur |-> c, t |-> t]
+                      ELSE [@ EXCEPT !.cur = IF c > @ THEN c ELSE @],
             !.owe = {o \in @ : ~(o.n = n /\ o.ctr = a)}]            \* acknowledging again discharges the obligation
 
 DlvOk(f, c, t, st) == TxOf(st, f, c) # {}
